@@ -71,13 +71,19 @@ func genTrimPath(r *Rng) clip.Path64 {
 	n := r.Range(0, 9)
 	k := r.Range(2, 5)
 	var mul, off int64 = 1, 0
-	switch r.Pick(3, 4, 2, 1) {
+	switch r.Pick(6, 8, 4, 2, 1, 1) {
 	case 1:
 		mul = 2 // no coordinate difference of exactly 1
 	case 2:
 		mul, off = 1<<20, -(1 << 28)
 	case 3:
 		mul, off = 1, (1<<29)-6
+	case 4:
+		// coordinate differences on both sides of 2^32 (the 128-bit product comparison of isCollinear
+		// splits its operands there): grid spacing 2^30, up to 9 wide
+		mul, k = 1<<30, r.Range(4, 9)
+	case 5:
+		mul, k = 1000000007, r.Range(4, 14)
 	}
 	p := make(clip.Path64, 0, n+2)
 	for len(p) < n {
@@ -93,7 +99,7 @@ func genTrimPath(r *Rng) clip.Path64 {
 
 func init() {
 	stages["c15-search"] = func(ctx *Ctx, cnt func(q, t int) int, replay string) Result {
-		col := NewCollector("C15", "search", "closed and open paths of 0-11 vertices on 2-5 wide grids (duplicates, spikes, collinear runs spanning index 0) at unit spacing, spacing 2 (no coordinate difference of exactly 1), 2^20 and next to 2^29; the Lean oracle judges cyclic-subsequence, exact area, no three collinear, < 3 ⇒ empty, end points of open paths, winding of every off-boundary point (region oracle, r = 0), and the harness checks idempotence; non-trivial = at least one vertex removed and a non-empty result")
+		col := NewCollector("C15", "search", "closed and open paths of 0-11 vertices on 2-5 wide grids (duplicates, spikes, collinear runs spanning index 0) at unit spacing, spacing 2 (no coordinate difference of exactly 1), 2^20, next to 2^29, and 4-14 wide grids of spacing 2^30 / 10^9+7 (coordinate differences on both sides of 2^32); the Lean oracle judges cyclic-subsequence, exact area, no three collinear, < 3 ⇒ empty, end points of open paths, winding of every off-boundary point (region oracle, r = 0), and the harness checks idempotence; non-trivial = at least one vertex removed and a non-empty result")
 		parallelFor(ctx, cnt(30000, 2000000), true, col, func(o *Oracle, i int) {
 			r := NewRng(ctx.Seed, "c15", i)
 			c := trimCase{Path: genTrimPath(r), Open: r.Chance(0.25)}
